@@ -596,4 +596,18 @@ example (sel : Bytes) : parseInstr [(strBytes "a b()void; // é", sel)] (tokenis
   (methodsig_correct [] "a b()void; // é" _ sel
     (by unfold mkMethod; rw [if_neg (by decide), if_neg (by decide)])).2.2.2.2.1
 
+/-! ## injectivity corollaries: two different byte strings never share a literal spelling -/
+
+/-- different byte strings have different escaped string literals -/
+theorem escape_injective (bs cs : Bytes) (h : escapeStr bs = escapeStr cs) : bs = cs := by
+  have h1 := escape_roundtrip bs
+  rw [h, escape_roundtrip cs] at h1
+  exact (Option.some.inj h1).symm
+
+/-- different byte strings have different `0x` literals -/
+theorem hex_injective (bs cs : Bytes) (h : hex bs = hex cs) : bs = cs := by
+  have h1 := hex_roundtrip bs
+  rw [h, hex_roundtrip cs] at h1
+  exact (Prod.mk.inj (Option.some.inj h1)).1.symm
+
 end PyTealV.Proofs.C13
